@@ -91,6 +91,32 @@ def signature(handles):
 
 
 # ------------------------------------------------------------ executing ops on the real classes
+DEEP_SHARED = []      # (shared fields, op prefix, data width) of every deep copy that shares a mutable object with its source
+
+
+def mutable_fields(st):
+    """every mutable object a state reaches, by path (arrays of ANY dimension - a 0-d array can be written in place too -,
+    lists, the cluster and argument containers)"""
+    out = {"arguments": st.arguments, "arguments.sparsity_weight": st.arguments.sparsity_weight,
+           "arguments.label_switching_cost": st.arguments.label_switching_cost, "clusters": st.clusters, "_point_labels": st._point_labels,
+           "stacked_training_data": st.stacked_training_data, "point_log_likelihood": st.point_log_likelihood}
+    for k, cl in enumerate(st.clusters):
+        out["clusters[%d]" % k] = cl
+        for f, v in vars(cl).items():
+            out["clusters[%d].%s" % (k, f)] = v
+    return {k: v for k, v in out.items() if isinstance(v, (np.ndarray, list, dict, set)) or hasattr(v, "__dict__")}
+
+
+def shared_mutables(a, b):
+    fa, fb = mutable_fields(a), mutable_fields(b)
+    ids = {id(v): k for k, v in fa.items()}
+    out = [(ids[id(v)], k) for k, v in fb.items() if id(v) in ids]
+    for ka, va in fa.items():
+        if isinstance(va, np.ndarray) and va.dtype != object:
+            for kb, vb in fb.items():
+                if isinstance(vb, np.ndarray) and vb.dtype != object and va is not vb and va.size and vb.size and np.shares_memory(va, vb):
+                    out.append((ka, kb))
+    return out
 class FakeTask:
     def __init__(self, theta):
         self.theta = theta
@@ -127,7 +153,11 @@ def exec_ops(K, m, lam_arr, beta_arr, npoints, ops, data):
             elif kind == "shallow":
                 cur = cur.shallow_copy()
             elif kind == "deep":
+                src_ = cur
                 cur = cur.deep_copy()
+                shared = shared_mutables(src_, cur)
+                if shared:
+                    DEEP_SHARED.append((shared, [list(o) if isinstance(o, tuple) else o for o in ops[:ops.index(op) + 1]], int(data.shape[1])))
             elif kind == "repop":
                 _, spreads, order, draws = op
                 dr = list(draws)
@@ -439,6 +469,7 @@ def run(ctx):
     impl = []
     cov = core.LineCoverage()
     hist = {"ops": {}, "errors": 0}
+    n_shared_reports = 0
     with cov:
         for ci_, c in enumerate(cases):
             # (one, two or three columns: with a single column NumPy's covariance of a cluster is a 0-d array, still an array)
@@ -449,6 +480,11 @@ def run(ctx):
                 h = sigs
                 hist["errors"] += err is not None
             impl.append(h)
+            for shared, prefix, width in DEEP_SHARED[: max(0, 5 - n_shared_reports)]:
+                n_shared_reports += 1
+                ctx.violation("monitor", "a deep copy shares a mutable object with its source: %s (data with %d column(s))" % (
+                    ", ".join("%s is %s" % (x, y) for x, y in shared[:4]), width), {"case": c, "ops_up_to_copy": prefix, "shared": shared, "data_columns": width})
+            del DEEP_SHARED[:]
             for op in c["ops"]:
                 hist["ops"][op[0]] = hist["ops"].get(op[0], 0) + 1
             ctx.count("opseq")
